@@ -7,7 +7,22 @@ use std::io::Write;
 use std::sync::Mutex;
 use std::time::Instant;
 
-pub const VERIF_ROOT: &str = "/verif";
+/// Root of the verification tree: $VERIF_ROOT, else derived from the executable (<root>/target/<profile>/vh), else /verif.
+pub fn root() -> String {
+  if let Ok(r) = std::env::var("VERIF_ROOT") {
+    if !r.is_empty() {
+      return r;
+    }
+  }
+  if let Ok(exe) = std::env::current_exe() {
+    if let Some(r) = exe.parent().and_then(|p| p.parent()).and_then(|p| p.parent()) {
+      if r.join("known_findings.json").exists() {
+        return r.to_string_lossy().to_string();
+      }
+    }
+  }
+  "/verif".to_string()
+}
 
 /// One violation: `key` is the origin key (what is matched against known_findings.json),
 /// `what` a one-line human description, `replay` a self-contained JSON case.
@@ -68,7 +83,7 @@ fn fnv(s: &str) -> u64 {
 /// Known findings file: { "findings": [ {"property": "C01", "key": "...", "what": "..."} ], "fixed": [ ... ] }
 pub fn load_known(prop: &str) -> BTreeMap<String, String> {
   let mut out = BTreeMap::new();
-  let path = format!("{}/known_findings.json", VERIF_ROOT);
+  let path = format!("{}/known_findings.json", root());
   if let Ok(text) = std::fs::read_to_string(&path) {
     match serde_json::from_str::<J>(&text) {
       Ok(doc) => {
@@ -195,7 +210,7 @@ impl Run {
         let _ = writeln!(out, "NOTE: listed finding not observed in this run (tier {}): property={} key={} {}", self.tier, self.prop, k, w);
       }
     }
-    let dir = format!("{}/replays/{}", VERIF_ROOT, self.prop);
+    let dir = format!("{}/replays/{}", root(), self.prop);
     let mut shown = 0;
     for (v, n) in &new_violations {
       if shown >= 200 {
@@ -245,8 +260,8 @@ impl Run {
       "wall_s": wall,
       "violations": new_violations.len(),
     });
-    let _ = std::fs::create_dir_all(format!("{}/evidence", VERIF_ROOT));
-    let evp = format!("{}/evidence/{}.json", VERIF_ROOT, self.prop);
+    let _ = std::fs::create_dir_all(format!("{}/evidence", root()));
+    let evp = format!("{}/evidence/{}.json", root(), self.prop);
     if let Err(e) = std::fs::write(&evp, serde_json::to_string_pretty(&ev).unwrap()) {
       eprintln!("MACHINERY: cannot write evidence {}: {}", evp, e);
       std::process::exit(2);
